@@ -3,6 +3,7 @@ import json
 
 import oracle_edges
 from props import _edgecommon
+from props import _optcommon
 
 
 def run(rep, tier, seed):
@@ -18,7 +19,7 @@ def run(rep, tier, seed):
                     oracle_edges.frame_independence,
                     'metamorphic runs on the implementation: chi2 and 1..5 optimizer iterations of a transformed graph vs the transform of the original '
                     '(T with rotations near 180 degrees, translations up to 1e4, SE2/SE3/R2/R3, landmarks with offsets)',
-                    n_oracle=(25, 400), n_search=600)
+                    n_oracle=(25, 400), n_search=600, extra=_optcommon.optloop_extra)
 
 
 def replay(p):
